@@ -850,7 +850,13 @@ pub fn gen_c20(rng: &mut Rng) -> Value {
     // odd on-disk states
     let nodd = rng.below(3);
     for _ in 0..nodd {
-        let s = match rng.below(15) {
+        let s = match rng.below(16) {
+            15 => {
+                // a record with a valid checksum, written by some other program, whose integrity text is not an
+                // integrity value (unknown algorithm / no digest part)
+                let ki = rng.idx(3);
+                json!({"k":"env","act":"append_record","bucket":ki,"rec":{"key":keys[ki].clone(),"integrity":*rng.pick(&["md5-1B2M2Y8AsgTpgAmY7PhCfg==", "garbage", "sha256", "crc32-AAAA sha256-47DEQpj8HBSa+/TImW+5JCeuQeRkm5NMpJWZG3hSuFU="]),"time":1,"size":0,"metadata":null,"raw_metadata":null},"hostile":true})
+            }
             13 => {
                 // leftovers next to a bucket file: lock-like, temp-like, backup-like names
                 let key = keys[rng.idx(3)].clone();
